@@ -398,3 +398,101 @@ func slKnownSx() vlib.Sx {
 	}
 	return out
 }
+
+// ---- every built-in tag ---------------------------------------------------------
+//
+//	!sl-all xSCRIPT (xLANG ...)
+//
+// "for ... all script/language tags of the built-in tables": a script list built
+// here from the OpenType description of the ScriptList (one script; a default
+// language system and one LangSys record per listed language, each with its own
+// optional feature index as a marker) is read with readScriptList.  Every
+// language system in the bytes must come back: the reader drops a language
+// system whose tag conversion fails without reporting it, so the oracle counts
+// the entries and checks the markers - it does not convert tags itself.
+
+func slAllBytes(script string, langs []string) []byte {
+	be := func(v int) []byte { return []byte{byte(v >> 8), byte(v)} }
+	n := len(langs)
+	b := append(be(1), []byte(script)...)
+	b = append(b, be(8)...) // script table right behind the one record
+	st := append(be(4+6*n), be(n)...)
+	for i, l := range langs {
+		st = append(st, []byte(l)...)
+		st = append(st, be(4+6*n+8*(i+1))...)
+	}
+	for i := 0; i <= n; i++ { // default first, then the languages
+		st = append(st, 0, 0, 0xFF, 0xFF, 0, 1)
+		st = append(st, be(i)...)
+	}
+	return append(b, st...)
+}
+
+func slAllCase(script string, langs []string) (impl, fail string) {
+	data := slAllBytes(script, langs)
+	var info gtab.ScriptListInfo
+	var err error
+	if pp, msg := guard(func() { info, err = gtab.VerifC14ReadScriptList(data) }); pp {
+		return "panic", "readScriptList panics on a well-formed script list: " + msg
+	}
+	if err != nil {
+		return "err", fmt.Sprintf("readScriptList rejects a well-formed script list of script %q: %v", script, err)
+	}
+	seen := map[int]bool{}
+	for _, f := range info {
+		if f != nil && len(f.Optional) == 1 {
+			seen[int(f.Optional[0])] = true
+		}
+	}
+	impl = fmt.Sprintf("(ok %d)", len(info))
+	for i := 0; i <= len(langs); i++ {
+		if !seen[i] {
+			which := "the default language system"
+			if i > 0 {
+				which = fmt.Sprintf("language system %q", langs[i-1])
+			}
+			return impl, fmt.Sprintf("script %q: %s is in the table but not in the script list read from it (%d of %d entries came back)", script, which, len(info), len(langs)+1)
+		}
+	}
+	return impl, ""
+}
+
+func genAllTags(run *vlib.Run, tier string) {
+	var scripts, langs []string
+	for s := range gtab.VerifC14ScriptTable() {
+		scripts = append(scripts, s)
+	}
+	for l := range gtab.VerifC14LangTable() {
+		langs = append(langs, l)
+	}
+	sort.Strings(scripts)
+	sort.Strings(langs)
+	emit := func(s string, ls []string) {
+		lx := vlib.List{}
+		for _, l := range ls {
+			lx = append(lx, vlib.Hex([]byte(l)))
+		}
+		line := vlib.Line(vlib.Atom("!sl-all"), vlib.Hex([]byte(s)), lx)
+		impl, fail := slAllCase(s, ls)
+		idx := run.Add(line, impl, true, "sl-all", "oracle-only")
+		if fail != "" {
+			run.Fail(idx, line, fail, "c08-scriptlist-tag-lost")
+		}
+	}
+	// every language of the table, in chunks, under a few scripts
+	some := []string{"latn", "deva", "arab"}
+	if tier == "thorough" {
+		some = scripts
+	}
+	for _, s := range some {
+		for i := 0; i < len(langs); i += 40 {
+			emit(s, langs[i:min(i+40, len(langs))])
+		}
+	}
+	// every script of the table with a default and three language systems
+	for k, s := range scripts {
+		// three distinct languages, in table (sorted) order as the format requires
+		a := (7 * k) % (len(langs) - 2)
+		emit(s, []string{langs[a], langs[a+1], langs[a+2]})
+	}
+}
